@@ -31,7 +31,7 @@ def run(ctx):
         for ch in nonhex:
             bad_ids.append("PNP0A08"[:pos] + ch + "PNP0A08"[pos + 1:])
             bad_ids.append("ACPI000"[:pos] + ch + "ACPI000"[pos + 1:])
-    bad_ids += ["PN\u00e90A0", "PNP0A0\u00e9", "\u00e9NP0A08", "PNP\u00e9A8", "PNP0A08\u00e9"]    # non-ASCII characters, some with byte length 7
+    bad_ids += ["P\u00e90501", "\u20ac0501", "\u00e9\u00e9123", "AB\u00e9012", "PN\u00e90A0", "PNP0A0\u00e9", "\u00e9NP0A08", "PNP\u00e9A8", "PNP0A08\u00e9"]    # non-ASCII characters, some with byte length 7
     uu = set()
     base = "aabbccdd-eeff-0123-4567-89abcdef0123"
     for pos in range(36):
